@@ -636,7 +636,7 @@ impl Machine {
 
     pub fn exec(&mut self, rec: &[u8; 12]) -> R {
         self.step += 1;
-        if self.bulk_mode && rec[9] < 6 {
+        if self.bulk_mode && rec[9] >= 250 {
             return self.op_bulk(rec);
         }
         let mut r = Rec::new(rec);
@@ -786,6 +786,10 @@ impl Machine {
         let universe = self.profile.key_universe;
         let op = if def.multi {
             AnyOp::M(decode_mop(r, def.kty, def.vty, &self.cfg, universe.min(6), 120))
+        } else if self.profile.allow_panic && rec[9] >= 244 {
+            // C05: a retain whose predicate panics after 0-3 entries (the transaction is poisoned
+            // and its commit must be refused and leave no trace) in about one table op in twenty
+            AnyOp::T(crate::tableops::TOp::Retain { salt: tag, keep: rec[8], range: None, panic_at: Some(u32::from(rec[7] % 4)) })
         } else {
             AnyOp::T(decode_top(r, def.kty, def.vty, &self.cfg, universe, tag, self.profile.allow_panic))
         };
@@ -1801,7 +1805,7 @@ impl Machine {
 
     /// one case in twelve may contain bulk writes
     pub fn set_bulk_from(&mut self, tape: &Tape) {
-        self.bulk_mode = tape.cfg[3] % 12 == 0;
+        self.bulk_mode = tape.cfg[3] % 12 == 11; // never for a zeroed configuration record
     }
 
     pub fn run_tape(&mut self, tape: &Tape) -> R {
